@@ -145,7 +145,7 @@ var probes = map[string][2]string{
 	"this.encodeURI":                        {`encodeURI("a b#;")`, "a%20b#;"},
 	"this.encodeURIComponent":               {`encodeURIComponent("a b#;")`, "a%20b%23%3B"},
 	"this.Object":                           {`Object(1) instanceof Number && typeof new Object() === "object" && Object.prototype.toString.call(new Object("s"))`, "[object String]"},
-	"this.Function":                         {`new Function("a", "b", "return a*b")(6, 7) + "|" + Function("return 5")()`, "42|5"},
+	"this.Function":                         {`var fx = "global"; new Function("a", "b", "return a*b")(6, 7) + "|" + Function("return 5")() + "|" + (function(p) { var fx = "local"; with ({fx: "with"}) { return Function("return fx + typeof p")() + new Function("fx = 'written'; return ''")() + fx } })(1) + "|" + fx`, "42|5|globalundefinedwith|written"},
 	"this.Array":                            {`new Array(3).length + "|" + Array(1, 2).join("-") + "|" + new Array("3").length`, "3|1-2|1"},
 	"this.String":                           {`String(12) + typeof String(1) + typeof new String(1) + new String("ab").length`, "12stringobject2"},
 	"this.Boolean":                          {`Boolean("") + "|" + Boolean("0") + "|" + typeof new Boolean(0) + "|" + typeof Boolean(0)`, "false|true|object|boolean"},
@@ -176,12 +176,12 @@ var probes = map[string][2]string{
 	"Object.prototype.toLocaleString":       {`Object.prototype.toLocaleString.call({toString: function() { return "T" }})`, "T"},
 	"Object.prototype.valueOf":              {`var o = {}; (o.valueOf() === o) + "|" + typeof Object.prototype.valueOf.call(1)`, "true|object"},
 	"Object.prototype.hasOwnProperty":       {`({a: 1}).hasOwnProperty("a") + "|" + ({}).hasOwnProperty("toString")`, "true|false"},
-	"Object.prototype.isPrototypeOf":        {`Array.prototype.isPrototypeOf([]) + "|" + Array.prototype.isPrototypeOf({}) + "|" + Object.prototype.isPrototypeOf([])`, "true|false|true"},
+	"Object.prototype.isPrototypeOf":        {`var o = {}, c = Object.create(o); Array.prototype.isPrototypeOf([]) + "|" + Array.prototype.isPrototypeOf({}) + "|" + Object.prototype.isPrototypeOf([]) + "|" + o.isPrototypeOf(o) + "|" + o.isPrototypeOf(c) + "|" + c.isPrototypeOf(o) + "|" + Object.prototype.isPrototypeOf(Object.prototype) + "|" + Object.prototype.isPrototypeOf(1)`, "true|false|true|false|true|false|false|false"},
 	"Object.prototype.propertyIsEnumerable": {`[1].propertyIsEnumerable("0") + "|" + [1].propertyIsEnumerable("length") + "|" + ({}).propertyIsEnumerable("toString")`, "true|false|false"},
 	"Function.prototype.toString":           {`typeof Function.prototype.toString.call(function() {}) + "|" + (function() { try { Function.prototype.toString.call({}); return "no" } catch (e) { return e instanceof TypeError } })()`, "string|true"},
 	"Function.prototype.apply":              {`(function(a, b) { return this.x + a + b }).apply({x: 1}, [2, 3])`, "6"},
 	"Function.prototype.call":               {`(function(a, b) { return this.x + a + b }).call({x: 1}, 2, 3)`, "6"},
-	"Function.prototype.bind":               {`var f = (function(a, b) { return this.x + a + b }).bind({x: 1}, 2); f(3) + "|" + f.length`, "6|1"},
+	"Function.prototype.bind":               {`var f = (function(a, b) { return this.x + a + b }).bind({x: 1}, 2); f(3) + "|" + f.length + "|" + f.bind({x: 100}, 10)(1000) + "|" + f.call({x: 100}, 3)`, "6|1|13|6"},
 	"Array.isArray":                         {`Array.isArray([]) + "|" + Array.isArray({length: 0}) + "|" + Array.isArray(Array.prototype)`, "true|false|true"},
 	"Array.prototype.toString":              {`[1, [2, 3]].toString() + "|" + Array.prototype.toString.call({join: function() { return "J" }})`, "1,2,3|J"},
 	"Array.prototype.toLocaleString":        {`[{toLocaleString: function() { return "L" }, toString: function() { return "S" }}, 2].toLocaleString().charAt(0)`, "L"},
